@@ -752,11 +752,17 @@ class HfProtocol(utils.EventEmitter):
 
             # Isolate the AT response code and parameters.
             raw_response = self.read_buffer[header + 2 : trailer]
-            response = AtResponse.parse_from(raw_response)
-            logger.debug(f"<<< {raw_response.decode()}")
 
-            # Consume the response bytes.
+            # Consume the response bytes before parsing them, so that a line that
+            # cannot be parsed is dropped instead of being parsed again each time
+            # more data arrives.
             self.read_buffer = self.read_buffer[trailer + 2 :]
+            try:
+                response = AtResponse.parse_from(raw_response)
+            except ValueError:
+                logger.warning('Invalid response line %r', bytes(raw_response))
+                continue
+            logger.debug(f"<<< {raw_response.decode()}")
 
             # Forward the received code to the correct queue.
             if self.pending_command and (
